@@ -141,4 +141,15 @@ impl<'c, W, R, T> RootEvaluationScope<'c, W, R, T> {
     }
 }
 
+#[cfg(feature = "verif")]
+impl<'c, W, R, T> RootEvaluationScope<'c, W, R, T> {
+    pub(crate) fn verif_scope(&self) -> &RuntimeScope<'static, W, R, T> {
+        &self.scope
+    }
+
+    pub fn verif_runtime(&self) -> &RTCell<W, R, T> {
+        &self.runtime
+    }
+}
+
 pub type RuntimeResult<T> = Result<T, RuntimeViolation>;
